@@ -1096,3 +1096,95 @@ class Translator2T(Translator2):
 # lean/MenpoModel/Core/C14PyLoop.lean), for/else, statement rules that rebind several receivers / attribute variables,
 # guard statements, monadic operands hoisted out of their statement, `x is None`, keyword arguments in any order,
 # loop-carried variables in a canonical order.  Self-test: tools/test_py2lean2w.py.
+
+
+# =====================================================================================================================
+# Translator2TN — APPENDED by the C09 builder (robustness round; nothing above is changed).  Translator2T plus a
+# NORMALISATION of list comprehensions whose element (or filter) contains a call that may raise: such a comprehension
+# cannot be a `List.map` (the first raising element ends it), so it is rewritten, on the AST, into the canonical
+# append-loop before translation
+#       v = [E(t) for t in IT if C(t)]      ->      v = [] ; for t in IT: (if C(t):) v.append(E(t))
+# and a raising comprehension used as an operand of a statement (`return f([E(t) for t in IT])`) is first bound to a
+# fresh temporary.  The property's rules must know `$l.append($v)` (a stmt rule), as they do for hand-written loops.
+# A refactoring between the two spellings therefore yields the same Lean term.
+# =====================================================================================================================
+
+class Translator2TN(Translator2T):
+    def __init__(self, rules):
+        Translator2T.__init__(self, rules)
+        self._lc = 0
+
+    def _may_raise(self, node, scope):
+        for sub in ast.walk(node):
+            for pat, _tmpl, flag in self.r.expr:
+                if flag == "bind" and match(pat, sub, {}):
+                    return True
+            if (isinstance(sub, ast.Call) and isinstance(sub.func, ast.Name)
+                    and scope.get(sub.func.id) in self._closures):
+                return True
+        return False
+
+    def _raising_comp(self, node, scope):
+        return (isinstance(node, ast.ListComp) and len(node.generators) == 1 and not node.generators[0].is_async
+                and (self._may_raise(node.elt, scope) or any(self._may_raise(c, scope) for c in node.generators[0].ifs)))
+
+    @staticmethod
+    def _as_loop(name, comp):
+        g = comp.generators[0]
+        app = ast.Expr(value=ast.Call(func=ast.Attribute(value=ast.Name(id=name, ctx=ast.Load()), attr="append", ctx=ast.Load()),
+                                      args=[comp.elt], keywords=[]))
+        body = [app]
+        for c in reversed(g.ifs):
+            body = [ast.If(test=c, body=body, orelse=[])]
+        return [ast.Assign(targets=[ast.Name(id=name, ctx=ast.Store())], value=ast.List(elts=[], ctx=ast.Load())),
+                ast.For(target=g.target, iter=g.iter, body=body, orelse=[])]
+
+    def _block1(self, stmts, scope, ind, ctx):
+        if stmts:
+            st, rest = stmts[0], stmts[1:]
+            # (1) v = [raising comprehension]  ->  append-loop
+            if (isinstance(st, ast.Assign) and len(st.targets) == 1 and isinstance(st.targets[0], ast.Name)
+                    and self._raising_comp(st.value, scope)):
+                return self.block(self._as_loop(st.targets[0].id, st.value) + rest, scope, ind, ctx)
+            # (2) a raising comprehension as an operand of the statement's own expression -> bound to a temporary first
+            field = {ast.Assign: "value", ast.AugAssign: "value", ast.Return: "value", ast.Expr: "value", ast.If: "test",
+                     ast.For: "iter"}.get(type(st))
+            top = getattr(st, field, None) if field else None
+            if top is not None and not self._raising_comp(top, scope):
+                comps = [n for n in ast.walk(top) if self._raising_comp(n, scope)]
+                if comps:
+                    import copy
+                    comp = comps[0]
+                    name = "lc_%d" % self._lc
+                    self._lc += 1
+                    while name in scope:
+                        name += "_"
+
+                    # substitute on the original expression tree (node identity), on a shallow copy of the statement
+                    st2 = copy.copy(st)
+                    setattr(st2, field, self._subst(top, comp, name))
+                    return self.block(self._as_loop(name, comp) + [st2] + rest, scope, ind, ctx)
+            elif top is not None and isinstance(st, (ast.Return, ast.Expr, ast.If, ast.For, ast.AugAssign)):
+                name = "lc_%d" % self._lc
+                self._lc += 1
+                import copy
+                st2 = copy.copy(st)
+                setattr(st2, field, ast.Name(id=name, ctx=ast.Load()))
+                return self.block(self._as_loop(name, top) + [st2] + rest, scope, ind, ctx)
+        return Translator2T._block1(self, stmts, scope, ind, ctx)
+
+    @staticmethod
+    def _subst(tree, target, name):
+        """a copy of the expression `tree` in which the node `target` (by identity) is the variable `name`"""
+        if tree is target:
+            return ast.Name(id=name, ctx=ast.Load())
+        if not isinstance(tree, ast.AST):
+            return tree
+        new = type(tree)()
+        for f in tree._fields:
+            v = getattr(tree, f, None)
+            if isinstance(v, list):
+                setattr(new, f, [Translator2TN._subst(x, target, name) for x in v])
+            else:
+                setattr(new, f, Translator2TN._subst(v, target, name))
+        return new
